@@ -475,15 +475,37 @@ func extractThriftFilePathToAnnos(ast *parser.Thrift) parser.Annotation {
 // NOTICE: the next annotation will be appended to the end of the current annotation.
 func injectAnnotations(origin *[]*parser.Annotation, next []parser.Annotation) error {
 	if len(next) > 0 {
-		off := len(*origin)
-		tmp := make([]*parser.Annotation, off+len(next))
+		tmp := make([]*parser.Annotation, len(*origin), len(*origin)+len(next))
 		copy(tmp, *origin)
-		for i := off; i < len(tmp); i++ {
-			tmp[i] = &next[i-off]
+		for i := range next {
+			// the AST node is shared: a struct compiled a second time (request and response side,
+			// several functions) already carries what the first pass injected
+			if !hasSameAnnotation(*origin, &next[i]) {
+				tmp = append(tmp, &next[i])
+			}
 		}
 		*origin = tmp
 	}
 	return nil
+}
+
+func hasSameAnnotation(anns []*parser.Annotation, a *parser.Annotation) bool {
+	for _, b := range anns {
+		if b == nil || b.Key != a.Key || len(b.Values) != len(a.Values) {
+			continue
+		}
+		same := true
+		for i := range b.Values {
+			if b.Values[i] != a.Values[i] {
+				same = false
+				break
+			}
+		}
+		if same {
+			return true
+		}
+	}
+	return false
 }
 
 var (
